@@ -92,6 +92,10 @@ theorem sentinelCond : G.sentinelCond = [.error_message, .stream_id] := rfl
 theorem sentinelFallback_ne : G.sentinelErrFallback ≠ [] := by decide
 theorem statuses : G.okStatus = 200 ∧ G.unaryErr = 500 ∧ G.initRaise = some 500 ∧ G.exchangeRaise = some 500 ∧
     G.exchangeOvershoot = none ∧ G.producerTurn = none := ⟨rfl, rfl, rfl, rfl, rfl, rfl⟩
+/-- the two error paths of `_run_http_exchange_turn` the generated programs do not reach (an external input pointer that
+cannot be resolved; an input batch the declared schema refuses): extracted one by one, both HTTP status codes -/
+theorem exchange_input_statuses : VgiVerif.Gen.C34.exchangeResolve = some 500 ∧ VgiVerif.Gen.C34.exchangeCoerce = some 400 :=
+  ⟨rfl, rfl⟩
 
 /-! ### WF ⇒ SchemaOk -/
 
@@ -790,6 +794,17 @@ theorem loop_err {ex : Bool} {steps : List Step} {e : Exn} :
         cases h
         exact ⟨pos, hc⟩
 
+theorem failExn_logs (ls : List Log) (xs : List Item) : failExn (logItems ls ++ xs) = failExn xs := by
+  induction ls with
+  | nil => rfl
+  | cons l r ih => simpa [logItems, failExn] using ih
+
+theorem failExn_logs_err (ls : List Log) (e : Exn) : failExn (logItems ls ++ [Item.err e]) = e := by
+  rw [failExn_logs]; rfl
+
+theorem failExn_logs2_err (a b : List Log) (e : Exn) : failExn (logItems a ++ logItems b ++ [Item.err e]) = e := by
+  rw [List.append_assoc, failExn_logs, failExn_logs]; rfl
+
 theorem firstErr_logs (ls : List Log) (xs : List Item) : Http.firstErr (logItems ls ++ xs) = Http.firstErr xs := by
   induction ls with
   | nil => rfl
@@ -831,13 +846,17 @@ theorem turn_firstErr (brk : Nat → Bool) (steps : List Step) (e : Exn) :
       rw [firstErr_logs_only] at h
       cases h
     | raise e' =>
-      simp only [Engine.Http.turn, processStep, hact, Http.firstErr] at h
+      simp only [Engine.Http.turn, processStep, hact] at h
+      rw [firstErr_logs] at h
+      simp only [Http.firstErr] at h
       cases h
-      exact ⟨pos, by rw [hc]; simp [processStep, hact, cls, failExn]⟩
+      exact ⟨pos, by rw [hc]; simp [processStep, hact, cls, failExn_logs_err]⟩
     | nothing =>
-      simp only [Engine.Http.turn, processStep, hact, Http.firstErr] at h
+      simp only [Engine.Http.turn, processStep, hact] at h
+      rw [firstErr_logs] at h
+      simp only [Http.firstErr] at h
       cases h
-      exact ⟨pos, by rw [hc]; simp [processStep, hact, cls, failExn]⟩
+      exact ⟨pos, by rw [hc]; simp [processStep, hact, cls, failExn_logs_err]⟩
 
 theorem exchReqs_mem (m : StreamM) (over : Nat → Option Exn) :
     ∀ (k pos : Nat) (q : Http.Req), q ∈ Http.exchReqs m over pos k → ∃ p, q = .exch p (over p) := by
@@ -1004,11 +1023,11 @@ theorem sem_producer_outcome (steps : List Step) : Agrees (outcomeP steps) (Sem.
       simp only [Sem.producer, hact]
       exact saw_append (saw_append (saw_append (saw_lg _) (saw_data b)) (saw_lg _)) saw_fin
     | raise e =>
-      have hc : outcomeP (s :: r) = some e := by simp [outcomeP, processStep, hact, cls, failExn]
+      have hc : outcomeP (s :: r) = some e := by simp [outcomeP, processStep, hact, cls, failExn_logs_err]
       rw [hc]
       simp [Agrees, Sem.producer, hact]
     | nothing =>
-      have hc : outcomeP (s :: r) = some noDataExn := by simp [outcomeP, processStep, hact, cls, failExn]
+      have hc : outcomeP (s :: r) = some noDataExn := by simp [outcomeP, processStep, hact, cls, failExn_logs_err]
       rw [hc]
       simp [Agrees, Sem.producer, hact]
 
@@ -1025,19 +1044,19 @@ theorem sem_exchange_outcome (steps : List Step) : Agrees (outcomeX steps) (Sem.
       | some e => rw [ho] at ih; exact List.mem_append_right _ ih
       | none => rw [ho] at ih; exact saw_append (saw_append (saw_append (saw_lg _) (saw_data b)) (saw_lg _)) ih
     | finish =>
-      have hc : outcomeX (s :: r) = some finishOnExchangeExn := by simp [outcomeX, processExchangeStep, hact, cls, failExn]
+      have hc : outcomeX (s :: r) = some finishOnExchangeExn := by simp [outcomeX, processExchangeStep, hact, cls, failExn_logs, failExn]
       rw [hc]
       simp [Agrees, Sem.exchange, hact]
     | emitFinish b =>
-      have hc : outcomeX (s :: r) = some finishOnExchangeExn := by simp [outcomeX, processExchangeStep, hact, cls, failExn]
+      have hc : outcomeX (s :: r) = some finishOnExchangeExn := by simp [outcomeX, processExchangeStep, hact, cls, failExn_logs, failExn]
       rw [hc]
       simp [Agrees, Sem.exchange, hact]
     | raise e =>
-      have hc : outcomeX (s :: r) = some e := by simp [outcomeX, processExchangeStep, processStep, hact, cls, failExn]
+      have hc : outcomeX (s :: r) = some e := by simp [outcomeX, processExchangeStep, processStep, hact, cls, failExn_logs_err]
       rw [hc]
       simp [Agrees, Sem.exchange, hact]
     | nothing =>
-      have hc : outcomeX (s :: r) = some noDataExn := by simp [outcomeX, processExchangeStep, processStep, hact, cls, failExn]
+      have hc : outcomeX (s :: r) = some noDataExn := by simp [outcomeX, processExchangeStep, processStep, hact, cls, failExn_logs_err]
       rw [hc]
       simp [Agrees, Sem.exchange, hact]
 
@@ -1271,17 +1290,28 @@ theorem exchangeOne_agrees (s : Step) :
     simp only [List.singleton_append, Engine.Http.readExchange, Engine.Aux.trailing_logs]
     exact saw_append (saw_lg _) (saw_append (saw_lg _) (saw_data b))
   | finish =>
-    have h1 : processExchangeStep s = .fail [.err finishOnExchangeExn] := by simp [processExchangeStep, hact]
-    simp [Engine.Http.exchangeOne, h1, cls, failExn, Engine.Http.readExchange, Agrees]
+    have h1 : processExchangeStep s = .fail (logItems s.logs ++ logItems s.post ++ [.err finishOnExchangeExn]) := by
+      simp [processExchangeStep, hact]
+    simp only [Engine.Http.exchangeOne, h1, cls, failExn_logs2_err]
+    rw [List.append_assoc, Engine.Aux.readExchange_logs, Engine.Aux.readExchange_logs]
+    simp [Engine.Http.readExchange, Agrees]
   | emitFinish b =>
-    have h1 : processExchangeStep s = .fail [.err finishOnExchangeExn] := by simp [processExchangeStep, hact]
-    simp [Engine.Http.exchangeOne, h1, cls, failExn, Engine.Http.readExchange, Agrees]
+    have h1 : processExchangeStep s = .fail (logItems s.logs ++ logItems s.post ++ [.err finishOnExchangeExn]) := by
+      simp [processExchangeStep, hact]
+    simp only [Engine.Http.exchangeOne, h1, cls, failExn_logs2_err]
+    rw [List.append_assoc, Engine.Aux.readExchange_logs, Engine.Aux.readExchange_logs]
+    simp [Engine.Http.readExchange, Agrees]
   | raise e =>
-    have h1 : processExchangeStep s = .fail [.err e] := by simp [processExchangeStep, processStep, hact]
-    simp [Engine.Http.exchangeOne, h1, cls, failExn, Engine.Http.readExchange, Agrees]
+    have h1 : processExchangeStep s = .fail (logItems s.logs ++ [.err e]) := by simp [processExchangeStep, processStep, hact]
+    simp only [Engine.Http.exchangeOne, h1, cls, failExn_logs_err]
+    rw [Engine.Aux.readExchange_logs]
+    simp [Engine.Http.readExchange, Agrees]
   | nothing =>
-    have h1 : processExchangeStep s = .fail [.err noDataExn] := by simp [processExchangeStep, processStep, hact]
-    simp [Engine.Http.exchangeOne, h1, cls, failExn, Engine.Http.readExchange, Agrees]
+    have h1 : processExchangeStep s = .fail (logItems s.logs ++ [.err noDataExn]) := by
+      simp [processExchangeStep, processStep, hact]
+    simp only [Engine.Http.exchangeOne, h1, cls, failExn_logs_err]
+    rw [Engine.Aux.readExchange_logs]
+    simp [Engine.Http.readExchange, Agrees]
 
 theorem http_exchange_turn_status (env : Env) (brk : Nat → Bool) (n : Nat) (m : StreamM) (pos : Nat) :
     ∀ r ∈ Http.serve env brk n m (.exch pos none),
@@ -1376,13 +1406,17 @@ theorem chain (brk : Nat → Bool) (steps : List Step) :
         rw [this, fr_nil]
       rw [this]; rfl
     | raise e =>
-      have hc : outcomeP (s :: r) = some e := by simp [outcomeP, processStep, hact, cls, failExn]
+      have hc : outcomeP (s :: r) = some e := by simp [outcomeP, processStep, hact, cls, failExn_logs_err]
       rw [hc]
-      simp [Engine.Http.turn, processStep, hact, fr_err, Http.firstErr]
+      simp only [Engine.Http.turn, processStep, hact]
+      rw [fr_logs, firstErr_logs]
+      simp [fr_err, Http.firstErr]
     | nothing =>
-      have hc : outcomeP (s :: r) = some noDataExn := by simp [outcomeP, processStep, hact, cls, failExn]
+      have hc : outcomeP (s :: r) = some noDataExn := by simp [outcomeP, processStep, hact, cls, failExn_logs_err]
       rw [hc]
-      simp [Engine.Http.turn, processStep, hact, fr_err, Http.firstErr]
+      simp only [Engine.Http.turn, processStep, hact]
+      rw [fr_logs, firstErr_logs]
+      simp [fr_err, Http.firstErr]
 
 /-- `__iter__` after the eager parse of the init response issues the same requests as reading that body lazily would -/
 theorem fr_parse (server : Nat → List Item) (fuel : Nat) :
